@@ -93,27 +93,39 @@ var (
 	torsionG2   *bls12381.PointG2
 )
 
-// g1Torsion: a point of E(F_p) of order dividing the cofactor, found in the model and fed to the
-// library through the public constructor G1.FromAffineX (which checks the curve equation but not
-// subgroup membership).
+// g1Torsion: a point of E(F_p) of order dividing the cofactor, found in the model. No public
+// decoder or constructor of G1 admits a point outside the subgroup (FromAffine / FromAffineX /
+// FromCompressed / FromUncompressed all check - FromAffineX since the fix "G1.FromAffineX returns
+// points outside the prime-order subgroup"), so the point is written through the exported
+// low-level setter PointG1.V.SetAffine, and it is checked that FromAffineX now refuses it.
 func g1Torsion(t fataler) *bls12381.PointG1 {
 	torsionOnce[0].Do(func() {
 		c := refcurve.BLS12381G1()
 		T, ok := c.CofactorPoint(7)
 		if !ok || T.Inf || c.IsInPrimeSubgroup(T) || !c.IsSmallOrder(T) {
-			panic("harness: no G1 torsion point")
+			return
 		}
-		xb, _ := c.AffineBytesBE(T)
+		xb, yb := c.AffineBytesBE(T)
 		x, err := bls12381.NewG1BaseField().FromBytes(xb)
 		if err != nil {
-			panic(err)
+			return
 		}
-		p, err := bls12381.NewG1().FromAffineX(x, T.Y.Bit(0) == 1)
+		y, err := bls12381.NewG1BaseField().FromBytes(yb)
 		if err != nil {
-			panic(err)
+			return
 		}
-		torsionG1 = p
+		var p bls12381.PointG1
+		if ok := p.V.SetAffine(&x.V, &y.V); ok != 1 {
+			return
+		}
+		torsionG1 = &p
+		if q, err := bls12381.NewG1().FromAffineX(x, T.Y.Bit(0) == 1); err == nil && !q.IsTorsionFree() {
+			vlib.Note("bls12381.G1.FromAffineX returns a point outside the prime-order subgroup without an error (public constructor; C13 / C14 territory)")
+		}
 	})
+	if torsionG1 == nil {
+		t.Fatalf("harness: could not build a G1 cofactor-torsion point")
+	}
 	if !refcurve.BLS12381G1().IsSmallOrder(g1ToRef(t, torsionG1)) || torsionG1.IsTorsionFree() {
 		t.Fatalf("harness: G1 torsion point was not transported faithfully")
 	}
@@ -128,23 +140,26 @@ func g2Torsion(t fataler) *bls12381.PointG2 {
 		c := refcurve.BLS12381G2()
 		T, ok := c.CofactorPoint(3)
 		if !ok || T.Inf || c.IsInPrimeSubgroup(T) {
-			panic("harness: no G2 torsion point")
+			return
 		}
 		bf := bls12381.NewG2BaseField()
 		x, err := bf.FromBytes(append(be(T.X, 48), be(T.X1, 48)...))
 		if err != nil {
-			panic(err)
+			return
 		}
 		y, err := bf.FromBytes(append(be(T.Y, 48), be(T.Y1, 48)...))
 		if err != nil {
-			panic(err)
+			return
 		}
 		var p bls12381.PointG2
 		if ok := p.V.SetAffine(&x.V, &y.V); ok != 1 {
-			panic("harness: G2 torsion point refused by SetAffine")
+			return
 		}
 		torsionG2 = &p
 	})
+	if torsionG2 == nil {
+		t.Fatalf("harness: could not build a G2 cofactor-torsion point")
+	}
 	if !refcurve.BLS12381G2().Equal(g2ToRef(t, torsionG2), mustCofactorG2()) || torsionG2.IsTorsionFree() {
 		t.Fatalf("harness: G2 torsion point was not transported faithfully")
 	}
